@@ -23,6 +23,12 @@ def run(ctx, v, path):
         if same:
             print('VIOLATION property=%s replay=%s' % (ctx.prop, path)); return 1
         return 0
+    if v.get('layer') == 'E':
+        import layer_flags
+        r = layer_flags.flags_part(ctx)
+        if r['violations']:
+            print('VIOLATION property=%s replay=%s' % (ctx.prop, path)); return 1
+        return 2 if r['inconclusive'] else 0
     if v.get('layer') == 'B':
         import layer_b
         return layer_b.replay(ctx, v, path)
